@@ -53,6 +53,7 @@ type Input struct {
 	VerifyH   int                        `json:"verify_hasher,omitempty"`  // o7: hasher given to the verifier (0 = default)
 	E2E       *E2E                       `json:"e2e,omitempty"`
 	VP        *VPSpec                    `json:"verify_proof,omitempty"`
+	Mode      string                     `json:"mode,omitempty"`    // doc modifications: "" = fresh value, "inplace" = edit the checked Go value, "over" = json.Unmarshal over it
 	Loader    int                        `json:"loader,omitempty"`  // which document loader the case uses (0 = main)
 	History   []HistStep                 `json:"history,omitempty"` // calls made earlier in the same process, in order
 }
@@ -77,7 +78,9 @@ type result struct {
 	accept     bool
 	class      string // accept | reject | panic | skipped
 	msg        string
-	exact      *bool // exactness oracle: does re-derivation under the read-back options reproduce the claim?
+	exact      *bool  // exactness oracle: does re-derivation under the read-back options reproduce the claim?
+	firstClass string // in-place modes: the check on the object before it is modified
+	freshClass string // in-place modes: the check on a fresh value with the same content
 	e2eAccept  *bool
 	e2eMsg     string
 	vp         *vpObs
@@ -250,6 +253,9 @@ func (g *gen) register(in *Input) {
 // exec runs one case on the implementation (no reporting).
 func (g *gen) exec(in *Input) result {
 	var r result
+	if in.Mode != "" && in.Kind == "doc" && in.E2E == nil {
+		return g.execInPlace(in)
+	}
 	vc, err := parseVC(in.Cred)
 	if err != nil {
 		r.issueClass, r.issueMsg, r.class = "err", "credential does not parse: "+err.Error(), "skipped"
@@ -371,6 +377,9 @@ func (g *gen) judge(in *Input, r *result) {
 			rep.Fail("c06-binding-inexact", fmt.Sprintf("binding check says accept=%v, re-derivation reproduces the claim=%v", r.accept, *r.exact), in)
 		}
 	case "doc", "claim":
+		if in.Mode != "" {
+			g.judgeInPlace(in, r)
+		}
 		if r.exact != nil && *r.exact != r.accept {
 			rep.Fail("c06-binding-inexact", fmt.Sprintf("site %s: binding check says accept=%v, re-derivation reproduces the claim=%v", in.Site, r.accept, *r.exact), in)
 		}
@@ -393,6 +402,9 @@ func (g *gen) count(in *Input, r *result) {
 	k := in.Kind
 	if len(in.History) > 0 || in.Loader != 0 {
 		k = "history-" + k
+	}
+	if in.Mode != "" {
+		k = in.Mode + "-" + k
 	}
 	if in.E2E != nil {
 		k = "e2e-" + in.E2E.Kind
@@ -581,6 +593,30 @@ func (g *gen) generate() {
 				}
 			}
 		}
+	}
+	// the same modifications applied to the already issued-from and checked Go value
+	{
+		var extra []*Input
+		n := 0
+		for _, in := range ins {
+			if in.Opts != (credgen.Opts{}) && in.Opts.RevNonce != 0 {
+				continue
+			}
+			n++
+			if !g.cfg.Thorough() && n%3 != 0 {
+				continue
+			}
+			c := *in
+			c.Mode = "inplace"
+			extra = append(extra, &c)
+			if n%2 == 0 {
+				o := *in
+				o.Mode = "over"
+				o.Bound = false // encoding/json merges into the existing value: judged against a fresh value with the resulting content
+				extra = append(extra, &o)
+			}
+		}
+		ins = append(ins, extra...)
 	}
 	// probe: a string leaf extended by a NUL byte (observation O5 of DESIGN.md: HashBytes pads with zeros)
 	for _, sch := range schs {
@@ -786,12 +822,12 @@ func (g *gen) writeShards() error {
 			v := g.envOf(ld).ViewOf(vc, paths)
 			or.Note(v)
 			// term lists are shared between the credentials of one @context array (per loader)
-			ck := fmt.Sprintf("%d|%s", ld, strings.Join(vc.Context, " "))
+			ck := fmt.Sprintf("%d|%v|%s", ld, v.CtxOK, strings.Join(vc.Context, " "))
 			cn, ok := ctxIdx[ck]
 			if !ok {
 				cn = fmt.Sprintf("ctx%d", len(ctxIdx))
 				ctxIdx[ck] = cn
-				ctxDefs = append(ctxDefs, fmt.Sprintf("Definition %s := %s.", cn, credgen.TermsCoq(f, v.Terms, v.CtxOK)))
+				ctxDefs = append(ctxDefs, fmt.Sprintf("Definition %s : option (list term) := %s.", cn, credgen.TermsCoq(f, v.Terms, v.CtxOK)))
 			}
 			full := viewCoq(f, v, cn)
 			i := len(credIdx)
